@@ -13,6 +13,8 @@ stated here as `energyResT` with λ₀ = 0.
 import EPV.Gen.Cog21D
 import EPV.Spec.Euler1D
 import EPV.Lemmas.Euler1Db
+import EPV.Lemmas.HydroRobust
+import EPV.Lemmas.Bridge.Cog21
 import EPV.Tactics
 
 set_option linter.all false
@@ -32,19 +34,18 @@ theorem cog21_leaves : Cog21.okLeaves = [1, 2] := rfl
 theorem cog21_post_mass (p : Cog21.P) (r t : ℝ) (hr : r ≠ 0) :
     massRes (Cog21.L1.density p) (Cog21.L1.velocity p) 2 r t = 0 := by
   unfold massRes dr dt
-  rw [(Cog21.L1.density_hasDerivAt_t p r t).deriv, (Cog21.L1.density_hasDerivAt_r p r t (pow_ne_zero 3 hr)).deriv,
-    (Cog21.L1.velocity_hasDerivAt_r p r t).deriv]
+  epv_hydro_rw_derivs [Cog21.L1.density_hasDerivAt_t p r t, Cog21.L1.density_hasDerivAt_r p r t,
+    Cog21.L1.velocity_hasDerivAt_r p r t]
   simp only [epv_deriv, epv_leaf]
   ring
 
 theorem cog21_post_momentum (p : Cog21.P) (r t : ℝ) (hr : r ≠ 0) (hρ : p.rho0 ≠ 0) :
     momResT (Cog21.L1.density p) (Cog21.L1.velocity p) (Cog21.L1.temperature p) p.Gamma r t = 0 := by
   unfold momResT dr dt
-  rw [(Cog21.L1.velocity_hasDerivAt_t p r t).deriv, (Cog21.L1.velocity_hasDerivAt_r p r t).deriv,
-    (Cog21.L1.density_hasDerivAt_r p r t (pow_ne_zero 3 hr)).deriv,
-    (Cog21.L1.temperature_hasDerivAt_r p r t).deriv]
+  epv_hydro_rw_derivs [Cog21.L1.velocity_hasDerivAt_t p r t, Cog21.L1.velocity_hasDerivAt_r p r t,
+    Cog21.L1.density_hasDerivAt_r p r t, Cog21.L1.temperature_hasDerivAt_r p r t]
   simp only [epv_deriv, epv_leaf]
-  field_simp
+  epv_hydro_field_simp
   ring
 
 example : ∃ p : Cog21.P, ∃ r : ℝ, r ≠ 0 ∧ p.rho0 ≠ 0 :=
@@ -56,8 +57,8 @@ theorem cog21_post_energy (p : Cog21.P) (c a α β r t : ℝ) :
       p.Gamma 5 2 c a 0 α β r t = 0 := by
   rw [energyResT_lam0_zero]
   unfold energyHydroT dr dt
-  rw [(Cog21.L1.temperature_hasDerivAt_t p r t).deriv, (Cog21.L1.temperature_hasDerivAt_r p r t).deriv,
-    (Cog21.L1.velocity_hasDerivAt_r p r t).deriv]
+  epv_hydro_rw_derivs [Cog21.L1.temperature_hasDerivAt_t p r t, Cog21.L1.temperature_hasDerivAt_r p r t,
+    Cog21.L1.velocity_hasDerivAt_r p r t]
   simp only [epv_deriv, epv_leaf]
   ring
 
@@ -66,19 +67,19 @@ theorem cog21_post_energy (p : Cog21.P) (c a α β r t : ℝ) :
 theorem cog21_pre_mass (p : Cog21.P) (r t : ℝ) (hr : r ≠ 0) (ht : t ≠ 0) :
     massRes (Cog21.L2.density p) (Cog21.L2.velocity p) 2 r t = 0 := by
   unfold massRes dr dt
-  rw [(Cog21.L2.density_hasDerivAt_t p r t).deriv, (Cog21.L2.density_hasDerivAt_r p r t (pow_ne_zero 3 hr)).deriv,
-    (Cog21.L2.velocity_hasDerivAt_r p r t).deriv]
+  epv_hydro_rw_derivs [Cog21.L2.density_hasDerivAt_t p r t, Cog21.L2.density_hasDerivAt_r p r t,
+    Cog21.L2.velocity_hasDerivAt_r p r t]
   simp only [epv_deriv, epv_leaf]
-  field_simp
+  epv_hydro_field_simp
   ring
 
 theorem cog21_pre_momentum (p : Cog21.P) (r t : ℝ) (ht : t ≠ 0) :
     momResT (Cog21.L2.density p) (Cog21.L2.velocity p) (Cog21.L2.temperature p) p.Gamma r t = 0 := by
   unfold momResT dr dt
-  rw [(Cog21.L2.velocity_hasDerivAt_t p r t ht).deriv, (Cog21.L2.velocity_hasDerivAt_r p r t).deriv,
-    (Cog21.L2.temperature_hasDerivAt_r p r t).deriv]
+  epv_hydro_rw_derivs [Cog21.L2.velocity_hasDerivAt_t p r t, Cog21.L2.velocity_hasDerivAt_r p r t,
+    Cog21.L2.temperature_hasDerivAt_r p r t]
   simp only [epv_deriv, epv_leaf]
-  field_simp
+  epv_hydro_field_simp
   ring
 
 theorem cog21_pre_energy (p : Cog21.P) (c a lam0 α β r t : ℝ) :
@@ -86,8 +87,8 @@ theorem cog21_pre_energy (p : Cog21.P) (c a lam0 α β r t : ℝ) :
       p.Gamma 5 2 c a lam0 α β r t = 0 := by
   rw [energyResT_of_T_const_r _ _ _ _ _ _ _ _ _ _ _ _ _ (fun x => by simp only [epv_leaf])]
   unfold energyHydroT dr dt
-  rw [(Cog21.L2.temperature_hasDerivAt_t p r t).deriv, (Cog21.L2.temperature_hasDerivAt_r p r t).deriv,
-    (Cog21.L2.velocity_hasDerivAt_r p r t).deriv]
+  epv_hydro_rw_derivs [Cog21.L2.temperature_hasDerivAt_t p r t, Cog21.L2.temperature_hasDerivAt_r p r t,
+    Cog21.L2.velocity_hasDerivAt_r p r t]
   simp only [epv_deriv, epv_leaf]
   ring
 
@@ -114,7 +115,7 @@ theorem cog21_tree_post (p : Cog21.P) (r t : ℝ) (hΓT : p.Gamma * p.temp0 ≠ 
       (continuousAt_const.eventually_lt (cog21_shock_continuousAt p t hΓT ht.ne') h)
   have e : ∀ x s, (0 < s ∧ x < cog21_shock p s) → ¬ Cog21.c0 p x s ∧ Cog21.c1 p x s := by
     intro x s hc
-    simp only [epv_cond, cog21_shock] at hc ⊢
+    rw [EPV.Bridge.cog21_c0_iff, EPV.Bridge.cog21_c1_iff]
     exact ⟨not_le.2 hc.1, hc.2⟩
   exact ⟨agreeNear_of_cond (c := fun x s => 0 < s ∧ x < cog21_shock p s)
       (fun x s hc => by simp only [epv_tree, if_neg (e x s hc).1, if_pos (e x s hc).2]) hx hs,
@@ -136,7 +137,7 @@ theorem cog21_tree_pre (p : Cog21.P) (r t : ℝ) (hΓT : p.Gamma * p.temp0 ≠ 0
       ((cog21_shock_continuousAt p t hΓT ht.ne').eventually_lt continuousAt_const h)
   have e : ∀ x s, (0 < s ∧ cog21_shock p s < x) → ¬ Cog21.c0 p x s ∧ ¬ Cog21.c1 p x s := by
     intro x s hc
-    simp only [epv_cond, cog21_shock] at hc ⊢
+    rw [EPV.Bridge.cog21_c0_iff, EPV.Bridge.cog21_c1_iff]
     exact ⟨not_le.2 hc.1, not_lt.2 hc.2.le⟩
   exact ⟨agreeNear_of_cond (c := fun x s => 0 < s ∧ cog21_shock p s < x)
       (fun x s hc => by simp only [epv_tree, if_neg (e x s hc).1, if_neg (e x s hc).2]) hx hs,
